@@ -1,10 +1,13 @@
 """mh update T-route (tools/gen_mhupdate.py -> Gen/MhUpdate.lean -> GenProps/MhUpdate.lean), used by C05 and C10."""
 import os, re, sys
 sys.path.insert(0, os.path.dirname(os.path.abspath(__file__)))
-import vlib, gen_mhupdate, gen_mhfin
+import vlib, gen_mhupdate, gen_mhfin, gen_murmur
 
 THMS_TAIL = ["IsalVerif.GenProps.MhTail.all_canon", "IsalVerif.GenProps.MhTail.all_count", "IsalVerif.GenProps.MhTail.mhtail_current",
              "IsalVerif.MhTailC.canon_tail", "IsalVerif.MhTailC.tailBlocks_is_standard", "IsalVerif.GenProps.MhTail.mhtail_is_standard"]
+THMS_MUR = ["IsalVerif.GenProps.Murmur.all_canon", "IsalVerif.GenProps.Murmur.both_present", "IsalVerif.GenProps.Murmur.murblock_current",
+            "IsalVerif.GenProps.Murmur.murtail_current", "IsalVerif.MurC.canon_block_step", "IsalVerif.MurC.canon_tail_arith",
+            "IsalVerif.MurC.murmurTail_eq"]
 THMS_FIN = ["IsalVerif.GenProps.MhFin.all_canon", "IsalVerif.GenProps.MhFin.all_count", "IsalVerif.GenProps.MhFin.mhfin_current",
             "IsalVerif.GenProps.MhFin.stitched_present", "IsalVerif.MhFinC.canon_fin", "IsalVerif.MhFinC.mur_reads_buffered"]
 THMS = ["IsalVerif.GenProps.MhUpdate.all_canon", "IsalVerif.GenProps.MhUpdate.all_count", "IsalVerif.GenProps.MhUpdate.stitched_present",
@@ -43,6 +46,22 @@ def obligations(chk, tier):
                       {"kind": "obligation", "obligation": name, "detail": detail,
                        "note": "a finalize function (what is handed to murmur3 / the multi-hash tail, which words are copied out) is no "
                                "longer the proved one; the implementation is searched by the correspondence sweep of this check"}, no_input=True)
+    mfailed = []
+    if chk.pid == "C10":
+        try:
+            mrows = gen_murmur.main([os.path.join(b, "src"), vlib.LEAN])
+            merr = ""
+        except Exception as e:
+            mrows, merr = [], str(e)[:300]
+        chk.oblige("translator: arithmetic of %d murmur functions (block loop body, tail) -> Gen/Murmur.lean" % len(mrows), bool(mrows) and not merr, merr)
+        mfailed = vlib.lean_obligations(chk, "IsalVerif.GenProps.Murmur", THMS_MUR) if mrows else [("gen_murmur", merr)]
+        chk.cov["murmur_arith"] = {"functions": len(mrows), "frames_as_today": [bool(r[1]) for r in mrows], "theorems": THMS_MUR}
+        for name, detail in mfailed:
+            chk.violation("Lean obligation no longer checks: %s" % name,
+                          {"kind": "obligation", "obligation": name, "detail": detail,
+                           "note": "the murmur block / tail arithmetic (or the statements around it) is no longer the proved one; the "
+                                   "implementation is searched by the correspondence sweep of this check (running murmur state after "
+                                   "every update, final digest)"}, no_input=True)
     for name, detail in tfailed:
         chk.violation("Lean obligation no longer checks: %s" % name,
                       {"kind": "obligation", "obligation": name, "detail": detail,
@@ -62,4 +81,4 @@ def obligations(chk, tier):
                            "note": "the translated function differs from MhC.canon (or calls another family's block function); the "
                                    "implementation is searched by the correspondence sweep of this check"},
                           no_input=True, match={"fn": f, "monitor": "mh-update"})
-    return not failed and not tfailed and not ffailed
+    return not failed and not tfailed and not ffailed and not mfailed
